@@ -47,6 +47,22 @@ class Ctx:
 
 
 def compile_text(text):
+    """compile_prolog_from_string, or - for a quarter of the texts and for every text with a carriage
+    return in it - compile_prolog_from_file on a file holding exactly these characters (UTF-8): the two
+    entry points denote the same program"""
+    if '\r' in text or len(text) % 4 == 1:
+        import tempfile
+        fd, path = tempfile.mkstemp(prefix='yldverif', suffix='.prolog')
+        try:
+            with os.fdopen(fd, 'wb') as f:
+                f.write(text.encode('utf8'))
+
+            class FileCtx(Ctx):
+                current_source_file = path
+                outf = None
+            return C.compile_prolog_from_file(path, FileCtx)
+        finally:
+            os.unlink(path)
     return C.compile_prolog_from_string(text, Ctx)
 
 
@@ -134,6 +150,14 @@ def make_pypred(yp, rows, raise_at, yield_val=False, nparams=None):
                 raise user_exception('row %d of %d' % (i, len(rows)))
             vs = {}
             row = [build_term(yp, t, vs) for t in terms]
+            if yield_val == 'delegate':
+                # the user's generator hands the engine's own generator on: whatever is thrown into the
+                # query (close, an exception) arrives inside the unification itself
+                if len(row) == 1 and len(args) == 1:
+                    yield from E.unify(args[0], row[0])
+                else:
+                    yield from E.unify_arrays(list(args), row)
+                continue
             for _ in E.unify_arrays(list(args), row):
                 yield yield_val
         if raise_at == len(rows):
@@ -174,7 +198,13 @@ class RealEngine:
     # -- operations ------------------------------------------------------------
     def load(self, clauses, overwrite=True, fail=False):
         text = S.program_text(clauses)
-        code = compile_text(text)
+        if len(text) % 3 == 0:
+            # the same program written with parentheses around every compound body: the real compiler
+            # reads the text, the model gets the structure, so the reading of redundant parentheses
+            # ( `((C -> T) ; E)` is an if-then-else ) is part of what is compared
+            code = compile_text(S.program_text(clauses, parens='max'))
+        else:
+            code = compile_text(text)
         if fail:
             code = code + '\nthis_name_is_not_defined\n'
             try:
@@ -207,8 +237,12 @@ class RealEngine:
         return Sym('ok')
 
     def assert_fact(self, name, terms, append=True):
+        # an atom denotes by its name: the predicate name may be an atom object of another engine
+        # (one call in three), the facts belong to this engine all the same
+        self._asserts = getattr(self, '_asserts', 0) + 1
+        name_atom = E.YP().atom(name) if self._asserts % 3 == 0 else self.yp.atom(name)
         try:
-            self.yp.assert_fact(self.yp.atom(name), [self.term(t) for t in terms], append)
+            self.yp.assert_fact(name_atom, [self.term(t) for t in terms], append)
         except Exception as e:
             return exn_name(e)
         return Sym('ok')
@@ -240,6 +274,15 @@ class RealEngine:
                             q.close()
                         break
                     if kind == 'raise' and len(answers) >= k:
+                        if how == 'throw':
+                            # the exception is thrown *into* the suspended generator (generator.throw):
+                            # it must come out again, every pending finally having run
+                            try:
+                                q.throw(ConsumerError())
+                            except StopIteration:
+                                pass
+                            ending = [Sym('exn'), 'exception thrown into the query was swallowed']
+                            break
                         raise ConsumerError()
         except ConsumerError as e:
             ending = exn_name(e)
@@ -258,6 +301,32 @@ class RealEngine:
                 if common.sx(late) != common.sx(a):
                     res.append([Sym('saved-value-changed'), a, late])
         return res
+
+    def api_make(self, kind, terms):
+        """the iterator of a module-level unify() or of a builtin called as a method of the engine;
+        what it needs is evaluated when it is created, its answers are produced when it is consumed"""
+        args = [self.term(t) for t in terms]
+        if kind == '=':
+            return args, E.unify(args[0], args[1])
+        return args, getattr(self.yp, kind)(*args)
+
+    def api_iter(self, kind, terms, it=None, count=True):
+        if it is None:
+            args, it = self.api_make(kind, terms)
+        else:
+            args, it = it
+        answers = []
+        ending = Sym('done')
+        try:
+            for _ in it:
+                answers.append(canon_terms(args))
+        except Exception as e:
+            ending = exn_name(e)
+        del it
+        if not count:
+            return [Sym('q'), answers, ending, 0]      # (the weak set of variables is process-wide: not under threads)
+        gc.collect()
+        return [Sym('q'), answers, ending, bound_count()]
 
     def query_load(self, name, terms, k, how, clauses):
         """take k answers of a query, load a script while it is suspended, take the rest"""
@@ -327,6 +396,8 @@ def run_op(eng, op):
         return eng.query(op[1], op[3], op[2], how)
     if k == 'eb':
         return eng.evaluate_bounded(op[1], op[2], op[4], op[3])[0]
+    if k == 'apiq':
+        return eng.api_iter(op[1], op[2])
     if k == 'query_load':
         return eng.query_load(op[1], op[2], op[3], op[4], op[5])
     raise ValueError(op)
@@ -369,6 +440,8 @@ def scenario_model(ops, mode, fuel=4000):
             enc.append([Sym('query'), op[1], s] + list(op[3]))
         elif k == 'eb':
             enc.append([Sym('eb'), op[1], op[2], Sym('none') if op[3] is None else op[3]] + list(op[4]))
+        elif k == 'apiq':
+            enc.append([Sym('query'), op[1], Sym('all')] + list(op[2]))
         elif k == 'query_load':
             # a call resolves at the moment it is made: the load performed while the query is
             # suspended does not change its answers; afterwards the load is in force
